@@ -107,6 +107,58 @@ def true_opnorm(op, M=None):
     return smax(np.sqrt(wr)[:, None] * M / np.sqrt(wd)[None, :])
 
 
+def equal_operators(r, kind=None):
+    """two separately built but equal operators from the zoo (same sub-seed)"""
+    seed = r.getrandbits(48)
+    k1, a = sl.operator_zoo(random.Random(seed), kind) if kind else sl.operator_zoo(random.Random(seed))
+    k2, b = sl.operator_zoo(random.Random(seed), kind) if kind else sl.operator_zoo(random.Random(seed))
+    return k1, a, b
+
+
+def adversarial_history(op, r, M=None):
+    """HISTORY stratum: legal calls on the SAME operator object (and on objects derived from it)
+    before a solver derives its default steps from `op.norm(estimate=True)`: a deliberately rough
+    power-method estimate (tiny maxiter, start near the smallest singular direction), the exact
+    norm where one exists, norms of `op.adjoint` and `2 * op`.  None of them may influence later
+    results.  Returns the list of calls made."""
+    if M is None:
+        M = np.array([[float(v) for v in row] for row in sl.exact_matrix(op)])
+    done = []
+    try:
+        u, sv, vt = np.linalg.svd(M)
+        v = vt[-1] + 1e-3 * vt[0]           # near the smallest singular direction, not in the kernel
+    except Exception:  # noqa
+        v = np.ones(M.shape[1])
+    calls = [('norm(estimate, maxiter=2, xstart~v_min)',
+              lambda: op.norm(estimate=True, maxiter=2, xstart=unflat(op.domain, v))),
+             ('norm(estimate, maxiter=2)', lambda: op.norm(estimate=True, maxiter=2)),
+             ('norm()', lambda: op.norm()),
+             ('adjoint.norm(estimate, maxiter=2)', lambda: op.adjoint.norm(estimate=True, maxiter=2)),
+             ('(2*op).norm(estimate, maxiter=2)', lambda: (2 * op).norm(estimate=True, maxiter=2))]
+    first = r.choice([0, 0, 1])
+    order = [calls[first]] + [c for i, c in enumerate(calls) if i != first and r.random() < 0.5]
+    for name, fn in order:
+        st, val = guarded(fn)
+        done.append('{} -> {}'.format(name, val if st == 'ok' else err_kind(st)))
+    return done
+
+
+EARLY_STOP = ('power_method_opnorm stops early from a random start nearly orthogonal to the top singular '
+              'vector (isclose test after 2 iterations): ')
+
+
+def early_stop_cause(op_fresh, npseed, nrm):
+    """True when the under-estimate behind an inadmissible DEFAULT step is produced by the power
+    method itself on a FRESH operator (same numpy seed), and a long run from the same start does
+    reach the norm: the known finding F21, not a history / formula defect."""
+    from odl.operator.oputils import power_method_opnorm
+    np.random.seed(npseed)
+    st1, e1 = guarded(lambda: float(op_fresh.norm(estimate=True)))
+    np.random.seed(npseed)
+    st2, e2 = guarded(lambda: float(power_method_opnorm(op_fresh, maxiter=4000, rtol=1e-15, atol=0.0)))
+    return st1 == 'ok' and st2 == 'ok' and e1 < 0.97 * nrm and e2 >= 0.999 * nrm
+
+
 def l_term(r, space):
     """strongly convex `l_i = a |.|^2`: (odl functional, a, PSpec of grad l*, PSpec factory of
     prox_{sigma l*})"""
@@ -228,16 +280,18 @@ def family_landweber_mono(ctx, r, exact, n, opaque=False):
     """oracle only: residual under admissible relaxation, INCLUDING the default `omega=None`
     (= 1/op.norm(estimate=True)**2); model tie: C11 family and `lwomega`."""
     from odl.solvers import landweber
-    kind, A = sl.operator_zoo(r)
-    M = np.array([[float(v) for v in row] for row in sl.exact_matrix(A)])
+    kind, A, A_fresh = equal_operators(r)
+    M = np.array([[float(v) for v in row] for row in sl.exact_matrix(A_fresh)])
     b = sl.dy_vec(r, size_of(A.range), 16, 8)
     x0 = sl.dy_vec(r, size_of(A.domain), 16, 8)
-    nrm = true_opnorm(A, M)
-    default = r.random() < 0.4
+    nrm = true_opnorm(A_fresh, M)
+    default = r.random() < 0.5
+    history = adversarial_history(A, r, M) if default and r.random() < 0.6 else None
     u = None if default else r.choice([0.25, 0.5, 1.0, 1.5, 1.999])
     omega = None if default else u / nrm ** 2
     p = dict(solver='landweber_mono', opkind=kind, x0=x0, omega=omega if omega else 'None', fk='-',
-             gk='-', cseed=r.cseed)
+             gk='history' if history else '-', cseed=r.cseed)
+    hist_s = '' if not history else ' after ' + '; '.join(history)
     x = unflat(A.domain, x0)
     rec = Recorder()
     n = r.randint(2, 30)
@@ -249,10 +303,13 @@ def family_landweber_mono(ctx, r, exact, n, opaque=False):
         res = [float((A(unflat(A.domain, v)) - unflat(A.range, b)).norm()) for v in [x0] + rec.iterates]
         k = mono_violation(res)
         if k is not None:
-            viol(ctx, 'landweber residual increases opkind={} omega={}'.format(
-                kind, 'default(None)' if default else '{}/|A|^2'.format(u)),
-                '|Ax_{}-b|={} > |Ax_{}-b|={} (numpy seed {})'.format(k + 1, res[k + 1], k, res[k], npseed),
-                p, n=n, npseed=npseed)
+            pre = EARLY_STOP if (default and early_stop_cause(A_fresh, npseed, nrm)) else ''
+            viol(ctx, pre + 'landweber residual increases opkind={} omega={}{}'.format(
+                kind, 'default(None)' if default else '{}/|A|^2'.format(u),
+                ' (operator object with a call history)' if history else ''),
+                '|Ax_{}-b|={} > |Ax_{}-b|={} (numpy seed {}){}'.format(
+                    k + 1, res[k + 1], k, res[k], npseed, hist_s)[:900],
+                p, n=n, npseed=npseed, history=history)
     else:
         viol(ctx, 'landweber raises opkind={} omega={}'.format(kind, p['omega']), st, p, n=n)
     cases = []
@@ -267,8 +324,22 @@ def family_landweber_mono(ctx, r, exact, n, opaque=False):
         seq_vs_reference(ctx, 'landweber(omega=None) differs from the documented default omega = '
                          '1/|A|^2 opkind=' + kind, p, rec.iterates, ref, n=n, est=est)
         if not (est <= nrm * (1 + 1e-9) and 2 * est ** 2 >= nrm ** 2):
-            viol(ctx, 'default Landweber relaxation inadmissible opkind=' + kind,
-                 'estimate {} of |A| = {}: omega |A|^2 = {} > 2'.format(est, nrm, nrm ** 2 / est ** 2), p)
+            np.random.seed(npseed)
+            same = abs(est - float(A_fresh.norm(estimate=True))) <= 1e-9 * max(1.0, est)
+            pre = EARLY_STOP if (same and early_stop_cause(A_fresh, npseed, nrm)) else ''
+            viol(ctx, pre + 'default Landweber relaxation inadmissible opkind={}{}'.format(
+                kind, ' (operator object with a call history)' if history else ''),
+                'estimate {} of |A| = {}: omega |A|^2 = {} > 2{}'.format(
+                    est, nrm, nrm ** 2 / est ** 2, hist_s)[:900], p, history=history)
+        # history independence: a freshly built equal operator gets the same default
+        np.random.seed(npseed)
+        est_fresh = float(A_fresh.norm(estimate=True))
+        if abs(est - est_fresh) > 1e-9 * max(1.0, est_fresh):
+            viol(ctx, 'default Landweber relaxation depends on the call history of the operator object '
+                 'opkind=' + kind, 'norm used {} vs {} for a freshly built equal operator{}'.format(
+                     est, est_fresh, hist_s)[:900], p, history=history)
+        if history:
+            ctx.hit('history/landweber-default')
         cases.append(Case(desc_of(p), ('model', 'lwomega', kind), 'lwomega est=' + fs(est), 'ok', None,
                           {'_floats': {'omega': 1 / est ** 2}}))
         ctx.hit('model/stepsize/landweber-default')
@@ -546,31 +617,70 @@ def family_stepsize_rules(ctx, r, exact, n, opaque=False):
                       None, {'_floats': {'tau': float(res[0]), 'sigma': [float(v) for v in res[1]]}}
                       if st == 'ok' else {}))
     # --- operators: admissibility of the DEFAULT steps
-    kind, L = sl.operator_zoo(r)
-    nrm = true_opnorm(L)
+    kind, L, L_fresh = equal_operators(r)
+    nrm = true_opnorm(L_fresh)
     tau = r.choice([None, None, 0.3 / nrm])
     sigma = None if tau is not None else r.choice([None, None, 0.3 / nrm])
+    history = adversarial_history(L, r) if r.random() < 0.6 else None
+    hist_s = '' if not history else ' after ' + '; '.join(history)
+    npseed = r.randint(0, 2 ** 31 - 1)
+    np.random.seed(npseed)
     st, res = guarded(pdhg_stepsize, L, tau, sigma)
     if st != 'ok':
-        viol(ctx, 'pdhg_stepsize raises opkind=' + kind, st, p)
+        viol(ctx, 'pdhg_stepsize raises opkind=' + kind, st + hist_s[:400], p)
     else:
         cond = float(res[0]) * float(res[1]) * nrm ** 2
         if not (cond < 1.0 and cond > 0.5):
-            viol(ctx, 'pdhg_stepsize default steps violate tau*sigma*|L|^2 < 1 (or are far too small) '
-                 'opkind={} given={}'.format(kind, 'tau' if tau else ('sigma' if sigma else 'none')),
-                 'tau={} sigma={} |L|={}: tau*sigma*|L|^2 = {}'.format(res[0], res[1], nrm, cond), p)
+            np.random.seed(npseed)
+            st_f, res_f = guarded(pdhg_stepsize, L_fresh, tau, sigma)
+            same = st_f == 'ok' and all(abs(float(a_) - float(b_)) <= 1e-9 * max(1.0, abs(float(b_)))
+                                        for a_, b_ in zip(res, res_f))
+            pre = EARLY_STOP if (same and cond >= 1.0 and early_stop_cause(L_fresh, npseed, nrm)) else ''
+            viol(ctx, pre + 'pdhg_stepsize default steps violate tau*sigma*|L|^2 < 1 (or are far too small) '
+                 'opkind={} given={}{}'.format(kind, 'tau' if tau else ('sigma' if sigma else 'none'),
+                                               ' (operator object with a call history)' if history else ''),
+                 'tau={} sigma={} |L|={}: tau*sigma*|L|^2 = {}{}'.format(res[0], res[1], nrm, cond,
+                                                                         hist_s)[:900], p, history=history)
+        np.random.seed(npseed)
+        st2, res2 = guarded(pdhg_stepsize, L_fresh, tau, sigma)
+        if st2 != 'ok' or any(abs(float(a_) - float(b_)) > 1e-9 * max(1.0, abs(float(b_)))
+                              for a_, b_ in zip(res, res2)):
+            viol(ctx, 'pdhg_stepsize depends on the call history of the operator object opkind=' + kind,
+                 'steps {} vs {} for a freshly built equal operator{}'.format(res, res2, hist_s)[:900], p,
+                 history=history)
+        if history:
+            ctx.hit('history/pdhg_stepsize')
     m = r.randint(1, 3)
-    ops = [sl.operator_zoo(r, r.choice(['matrix', 'scaled', 'identity', 'matrix']), 3)[1] for _ in range(m)]
-    nr = [true_opnorm(o) for o in ops]
+    pairs = [equal_operators(r, r.choice(['matrix', 'scaled', 'identity', 'matrix'])) for _ in range(m)]
+    ops, ops_fresh = [q_[1] for q_ in pairs], [q_[2] for q_ in pairs]
+    nr = [true_opnorm(o) for o in ops_fresh]
+    history = [h_ for o in ops for h_ in adversarial_history(o, r)] if r.random() < 0.6 else None
+    hist_s = '' if not history else ' after ' + '; '.join(history)
+    np.random.seed(npseed)
     st, res = guarded(douglas_rachford_pd_stepsize, ops, None, None)
     if st != 'ok':
-        viol(ctx, 'douglas_rachford_pd_stepsize raises', st, p)
+        viol(ctx, 'douglas_rachford_pd_stepsize raises', st + hist_s[:400], p)
     else:
         cond = float(res[0]) * sum(float(si) * v * v for si, v in zip(res[1], nr))
         if not (cond < 4.0 and cond > 1.0):
-            viol(ctx, 'douglas_rachford_pd_stepsize default steps violate tau*sum(sigma_i*|L_i|^2) < 4 '
-                 '(or are far too small) m={}'.format(m),
-                 'tau={} sigma={} norms={}: {}'.format(res[0], res[1], nr, cond), p)
+            np.random.seed(npseed)
+            st_f, res_f = guarded(douglas_rachford_pd_stepsize, ops_fresh, None, None)
+            same = st_f == 'ok' and abs(float(res[0]) - float(res_f[0])) <= 1e-9 * max(1.0, abs(float(res_f[0])))
+            pre = EARLY_STOP if (same and cond >= 4.0 and any(
+                early_stop_cause(o_, npseed, v_) for o_, v_ in zip(ops_fresh, nr))) else ''
+            viol(ctx, pre + 'douglas_rachford_pd_stepsize default steps violate tau*sum(sigma_i*|L_i|^2) < 4 '
+                 '(or are far too small) m={}{}'.format(
+                     m, ' (operator objects with a call history)' if history else ''),
+                 'tau={} sigma={} norms={}: {}{}'.format(res[0], res[1], nr, cond, hist_s)[:900], p,
+                 history=history)
+        np.random.seed(npseed)
+        st2, res2 = guarded(douglas_rachford_pd_stepsize, ops_fresh, None, None)
+        if st2 != 'ok' or abs(float(res[0]) - float(res2[0])) > 1e-9 * max(1.0, abs(float(res2[0]))):
+            viol(ctx, 'douglas_rachford_pd_stepsize depends on the call history of the operator objects',
+                 'steps {} vs {} for freshly built equal operators{}'.format(res, res2, hist_s)[:900], p,
+                 history=history)
+        if history:
+            ctx.hit('history/douglas_rachford_pd_stepsize')
     ctx.hit('oracle/stepsize admissibility')
     return cases
 
@@ -795,7 +905,11 @@ def _optimality(ctx, r, niter):
         viol(ctx, 'pdhg fails on a strongly convex problem opkind={} f={} g={}'.format(
             q['kind'], q['fk'], q['gk']), st, p, A=A.tolist())
         return
-    # DEFAULT step sizes (pdhg_stepsize inside)
+    # DEFAULT step sizes (pdhg_stepsize inside); HISTORY stratum: the same operator object has been
+    # asked for rough norm estimates before
+    if r.random() < 0.5:
+        p['history'] = adversarial_history(L, r, A)
+        ctx.hit('history/optimality-default-steps')
     run('pdhg(default steps)', S.pdhg, f, g, L, niter)
     # accelerated PDHG: f is fmod-strongly convex; g* is 1/2-strongly convex for g = |.-c|^2
     run('pdhg(gamma_primal)', S.pdhg, f, g, L, niter, tau=tau, sigma=sigma,
@@ -1511,6 +1625,8 @@ EXPECTED_BRANCHES = [
     'model/c11-tie/kaczmarz(random order)', 'model/c11-tie/landweber', 'model/c11-tie/pdhg',
     'reference/osmlem/sensitivities=element', 'reference/osmlem/sensitivities=float',
     'test/start at the solution', 'oracle/stepsize admissibility',
+    'history/landweber-default', 'history/pdhg_stepsize', 'history/douglas_rachford_pd_stepsize',
+    'history/optimality-default-steps',
 ]
 SLOW = {'optimality': 0.2, 'fixed_point': 0.3, 'optimality_multi': 0.15, 'proxgrad_descent': 0.15, 'f12': 0.05, 'fista_rate': 0.05}
 C11_TIE = ('landweber', 'kaczmarz', 'pdhg', 'admm', 'proxgrad')
